@@ -28,7 +28,8 @@ EVENTS = [(h, s) for h in STRINGS for s in SCORES]
 N_MAIN = len(EVENTS)
 TINY = 1e-18                                      # a hypothesis ~41 nats below the best one: its arcs vanish next to 1.0 in float64
 TINY2 = 1e-200                                    # ~460 nats below: products of two such arcs underflow to exactly 0.0
-EVENTS += [(h, TINY) for h in STRINGS] + [(h, TINY2) for h in STRINGS]            # only used by the 'extreme' sub-sweep
+TINY3 = 1e-310                                    # a subnormal weight: still positive, still to be normalised
+EVENTS += [(h, TINY) for h in STRINGS] + [(h, TINY2) for h in STRINGS] + [(h, TINY3) for h in STRINGS]     # only used by the 'extreme' sub-sweep
 BOUNDS = {'quick': dict(depth=3), 'thorough': dict(depth=4)}
 BOUNDS['replay'] = BOUNDS['quick']
 EPS = 1e-9
@@ -61,6 +62,7 @@ def run_shard(shard, ctx, tier):
         for n in (130, 260, 300):
             for var in range(len(LONG_VARIANTS)):
                 guarded_check(mod, {'long': n, 'var': var}, ctx)
+        guarded_check(mod, {'long': 1200, 'var': 1}, ctx)          # a line of more than 1000 symbols (beyond the default recursion depth)
         return
     if 'extreme' in shard:
         # histories that contain a hypothesis with a vanishing score: the tiny event at any position of a history of length <= d - 1
@@ -293,7 +295,7 @@ def check_history(case, ctx, hist):
         return
     ctx.state(canon(after))
     desc = f'history {hist}: before={before} after={after}'
-    if any(sc in (TINY, TINY2) for _, sc in hist):
+    if any(sc in (TINY, TINY2, TINY3) for _, sc in hist):
         ctx.tag('vanishing-score-hypothesis')
 
     inc, w = included(before, after) if before else (True, None)
